@@ -16,7 +16,10 @@ def lift_context(func: Function) -> Function:
     a leading ``ctxN = ...`` assignment and its use sites become
     variable references. In particular, a context constructed inside a
     loop body is built once, before the loop, instead of once per
-    iteration.
+    iteration. The binding holds the context the expression evaluates
+    to where it stands, not the expression: that value depends on the
+    context in force there (``REAL`` for a ``with`` item) and on the
+    definitions reaching it, neither of which holds at the top.
 
     Context expressions that cannot be statically evaluated (e.g. built
     from an argument) are left in place. The pass is idempotent.
@@ -47,7 +50,7 @@ def lift_context(func: Function) -> Function:
 
         @fp.fpy
         def accum(xs):
-            ctx = fp.IEEEContext(8, 32)
+            ctx = fp.FP32
             acc = 0
             for x in xs:
                 with ctx:
